@@ -102,6 +102,9 @@ func loadFindings(root string) ([]Finding, error) {
 }
 
 func claimed(p *Prop, o *Obligation) bool {
+	if only := os.Getenv("GOVC_ONLY_OBLIGATION"); only != "" && o.Class != "cover" && o.Name != only {
+		return false
+	}
 	for _, e := range p.Exclude {
 		if strings.Contains(o.Name, e) {
 			return false
@@ -178,6 +181,17 @@ func runCheck(repo, root, id, tier string, seed int, mutant string, writeEvidenc
 		return path
 	}
 	for _, k := range prop.Functions {
+		if strings.HasPrefix(k, "lemma:") {
+			vc := lemmaByKey(env, k)
+			if vc == nil || vc.generateLemma() != nil {
+				name := k + "#binding"
+				path := writeReplay(name, map[string]any{"reason": "lemma " + k + " is missing or cannot be translated"})
+				violations = append(violations, violation{name, path, "no-failing-input-found"})
+				continue
+			}
+			vcs = append(vcs, vc)
+			continue
+		}
 		d := env.funcC[k]
 		fn := env.findFunction(k)
 		if d == nil || fn == nil {
@@ -229,7 +243,11 @@ func runCheck(repo, root, id, tier string, seed int, mutant string, writeEvidenc
 		timeout = 60
 		all = true
 	}
-	discharge(append(append([]*VC{}, vcs...), findingVCs...), runOpts{scratch: scratch, timeoutS: timeout, all: all, workers: 8})
+	cacheDir := filepath.Join(root, ".cache")
+	if os.Getenv("GOVC_NO_CACHE") != "" || tier == "thorough" {
+		cacheDir = ""
+	}
+	discharge(append(append([]*VC{}, vcs...), findingVCs...), runOpts{scratch: scratch, timeoutS: timeout, all: all, workers: 8, cacheDir: cacheDir})
 	stillFails := map[string]bool{}
 	for _, vu := range findingVCs {
 		for _, o := range vu.obls {
@@ -245,7 +263,7 @@ func runCheck(repo, root, id, tier string, seed int, mutant string, writeEvidenc
 		}
 	}
 
-	total, discharged, covers := 0, 0, 0
+	total, discharged, covers, fromCache := 0, 0, 0, 0
 	byBackend := map[string]int{}
 	solverTime := 0.0
 	type slowT struct {
@@ -281,6 +299,11 @@ func runCheck(repo, root, id, tier string, seed int, mutant string, writeEvidenc
 			}
 			total++
 			r := o.Result
+			if r.Answer == "error" {
+				fmt.Printf("internal error: every back end rejected the query of %s: %s\n", o.Name, truncate(r.Output, 600))
+				internal++
+				continue
+			}
 			if r.Answer == "disagree" {
 				fmt.Printf("internal error: back ends disagree on %s: %v\n", o.Name, r.All)
 				internal++
@@ -289,7 +312,11 @@ func runCheck(repo, root, id, tier string, seed int, mutant string, writeEvidenc
 			if o.ok() {
 				discharged++
 				byBackend[r.Backend]++
-				solverTime += r.TimeS
+				if r.Cached {
+					fromCache++
+				} else {
+					solverTime += r.TimeS
+				}
 				slow = append(slow, slowT{o.Name, r.TimeS, r.Backend})
 				if len(samples) < 12 && (o.Class == "ensures" || o.Class == "inv-pres" || o.Class == "pre" || len(samples) < 4) {
 					samples = append(samples, map[string]any{"obligation": o.Name, "at": o.Pos, "verdict": "discharged", "backend": r.Backend, "seconds": r.TimeS})
@@ -371,7 +398,7 @@ func runCheck(repo, root, id, tier string, seed int, mutant string, writeEvidenc
 			violations = append(violations, violation{"bounded:" + b + ":" + v.name, path, ""})
 		}
 	}
-	if total < prop.MinObl {
+	if total < prop.MinObl && os.Getenv("GOVC_ONLY_OBLIGATION") == "" {
 		fmt.Printf("internal error: only %d obligations were generated for %s, expected at least %d\n", total, id, prop.MinObl)
 		internal++
 	}
@@ -400,6 +427,7 @@ func runCheck(repo, root, id, tier string, seed int, mutant string, writeEvidenc
 			"functions_under_contract": fns,
 			"by_backend":               byBackend,
 			"solver_time_s":            solverTime,
+			"discharged_from_query_cache": fromCache,
 			"slowest":                  slow,
 			"vacuity":                  map[string]any{"cover_checks": covers, "all_held": internal == 0},
 			"external_contracts_used":  keys(usedExternal),
